@@ -184,7 +184,8 @@ pub fn consumer_offset_new_stub(kind: ConsumerKind, consumer_id: u32, offset: u6
     ConsumerOffset { kind, consumer_id, offset, path: std::sync::Arc::new(s) }
 }
 pub fn path_exists_stub(p: &std::path::Path) -> bool {
-    iggy::verif_model::fs::exists_sync(p)
+    // a harness uses either the async model FS or its sync counterpart (twin tree); the other is empty
+    iggy::verif_model::fs::exists_sync(p) || iggy::verif_model::fs_sync::exists_sync(p)
 }
 
 // ------------------------------------------------------------------------------------------------
